@@ -17,13 +17,14 @@ var vpTableSpec = []vpRouteSpec{
 	{"foo.com", "/", "foo-root"}, {"foo.com", "/a", "foo-a"}, {"foo.com", "/a/b", "foo-ab"},
 	{"*.foo.com", "/", "wild-root"}, {"*.foo.com", "/a", "wild-a"},
 	{"*.a.foo.com", "/", "deep-root"},
+	{"z.foo.com", "/a", "z-a"}, // exact host without a catch-all path: other candidates must still be tried
 	{"", "/", "any-root"}, {"", "/a", "any-a"}, {"", "/FOOBAR", "any-FOOBAR"}, {"", "/foo", "any-foo"},
 }
 
 func vpBuildTable() Table {
 	var defs []RouteDef
 	for i, s := range vpTableSpec {
-		defs = append(defs, RouteDef{Cmd: RouteAddCmd, Service: s.svc, Src: s.host + s.path, Dst: "http://" + []string{"a", "b", "c", "d", "e", "f", "g", "h", "i", "j"}[i] + ":80/"})
+		defs = append(defs, RouteDef{Cmd: RouteAddCmd, Service: s.svc, Src: s.host + s.path, Dst: "http://" + []string{"a", "b", "c", "d", "e", "f", "g", "h", "i", "j", "k"}[i] + ":80/"})
 	}
 	t, err := NewTableCustom(&defs)
 	vp.Assert(err == nil && t != nil, "table-builds")
@@ -44,6 +45,9 @@ func vpRefLookup(host string, tls bool, path string, fold, globs bool) string {
 	var cands []string
 	if h == "foo.com" {
 		cands = append(cands, "foo.com")
+	}
+	if h == "z.foo.com" {
+		cands = append(cands, "z.foo.com")
 	}
 	if globs && strings.HasSuffix(h, ".a.foo.com") {
 		cands = append(cands, "*.a.foo.com")
